@@ -34,6 +34,18 @@ def gen_workload(rng, n):
         elif k < 0.85: calls.append(["minvert", rng.choice(pool_m)])
         elif k < 0.93: calls.append([rng.choice(["mcnf", "mdnf"]), rng.choice(pool_m)])
         else: calls.append(["mvalidate", rng.choice(pool_m), {kk: (vv if kk != "extra" else list(vv)) for kk, vv in env.items()}])
+    # spelling twins: two texts of one value (equal objects, different print) - whatever is memoised or canonicalised by equality must
+    # not let the spelling seen first come back for the other one.  Both members of a few pairs are always present, at random places.
+    twins_m = [('extra == "Docs"', 'extra == "docs"'), ('extra == "Foo_Bar" or extra == "test"', 'extra == "foo-bar" or extra == "TEST"'),
+               ('python_full_version >= "3.8"', 'python_full_version >= "3.8.0"'), ('sys_platform == "linux" and extra == "X.y"', 'sys_platform == "linux" and extra == "x-y"'),
+               ('python_version >= "3.8"', 'python_version >= "3.8.0"')]
+    twins_c = [("==1.0.post1.*", "==1.post1.*"), (">=1.0.0,<2", ">=1,<2.0.0"), ("==1.0.*", "==1.*"), ("!=1.0.post1.*", "!=1.post1.*"),
+               ("^1.2", ">=1.2.0,<2.0.0"), ("1.0 || >=2.0.0", "1.0.0 || >=2")]
+    for a, b in twins_m:
+        for t in (a, b): calls.insert(rng.randrange(len(calls) + 1), [rng.choice(["marker", "marker", "mcnf", "minvert"]), t])
+    for a, b in twins_c:
+        for t in (a, b): calls.insert(rng.randrange(len(calls) + 1), ["constraint", t])
+        calls.insert(rng.randrange(len(calls) + 1), [rng.choice(["cintersect", "cunion"]), rng.choice([a, b]), rng.choice([a, b])])
     return calls
 
 def run_worker(path, mode, seed, n=None, timeout=300):
